@@ -686,7 +686,9 @@ impl<W: Word, B: AsRef<[W]> + AsMut<[W]>> BitFieldSliceMut<W> for BitFieldVec<W,
             return;
         }
         let mask = self.mask();
-        let number_of_words: usize = self.bits.as_ref().len();
+        // Only the words that contain elements take part: the backend can be
+        // longer than the vector (e.g., after a resize or a pop).
+        let number_of_words: usize = (self.len() * bit_width).div_ceil(W::BITS);
         let last_word_idx = number_of_words.saturating_sub(1);
 
         let mut write_buffer: W = W::ZERO;
